@@ -210,6 +210,15 @@ func (g *Gen) Next(m *Model) Step {
 		}
 		strip(c.RSum)
 		strip(c.RPath)
+		// one argv string cannot exceed 128 KiB (MAX_ARG_STRLEN): no caller can
+		// pass more by flag; such bodies travel on stdin
+		if c.Mode == "flags" && c.Body != nil && len(*c.Body) > 100000 {
+			c.Mode = "bodystdin"
+		}
+		if c.Title != nil && len(*c.Title) > 100000 {
+			t := (*c.Title)[:1000]
+			c.Title = &t
+		}
 	}
 	return st
 }
